@@ -523,6 +523,11 @@ class BaseNetQASMConnection(abc.ABC):
 
         subroutine = self._builder.subrt_compile_subroutine(protosubroutine)
 
+        # The pending operations now live in the compiled subroutine: like after a
+        # flush, later subroutines must not declare and return their arrays and
+        # registers again.
+        self._builder._reset()
+
         return subroutine
 
     def commit_protosubroutine(
